@@ -42,6 +42,6 @@ git checkout -- . >/dev/null 2>&1; git clean -fdq -e target >/dev/null 2>&1
 git apply "$OUT/patch.diff"
 echo "== checks against the changed tree"
 for c in "$@"; do
-  MUT_ARGS="${MUT_ARGS:---tier quick}" "$V/tools/mutcheck.sh" "$WT" "$c" 2>&1 | grep -E "^(VIOLATION|OK|KNOWN-FINDING)" | cut -c1-400
+  MUT_SRC="${MUT_SRC:-/root/scratch/verif-snap}" MUT_ARGS="${MUT_ARGS:---tier quick}" "$V/tools/mutcheck.sh" "$WT" "$c" 2>&1 | grep -E "^(VIOLATION|OK|KNOWN-FINDING)" | cut -c1-400
 done
 echo "== done $ID"
